@@ -129,6 +129,14 @@ def verify_unit(repo, reg, qualname, timeout_ms=10000, instance=None):
             p.assume(pre.bool(rtxt))
         for inv in class_invariants(reg, repo, fi, c):
             p.assume(pre.bool(inv))
+        # store invariant (preserved by every primitive of the trusted store model): linked objects are positive,
+        # older than the allocation counter, and no object is its own child
+        g_, n_ = z3.Int("wfg"), z3.String("wfn")
+        lk = p.sigma["link"]
+        p.assume(p.sigma["fresh"] > 0)
+        p.assume(z3.ForAll([g_, n_], z3.And(lk[g_][n_] >= 0, lk[g_][n_] < p.sigma["fresh"],
+                                            z3.Or(lk[g_][n_] == 0, lk[g_][n_] != g_)),
+                           patterns=[lk[g_][n_]]))
         if c.replay and c.replay.get("extract"):
             for k, expr in c.replay["extract"].items():
                 try:
@@ -194,6 +202,9 @@ def verify_unit(repo, reg, qualname, timeout_ms=10000, instance=None):
                     obl.append(Obligation(qualname, cid, list(q.pc), z3.Not(cond), "raises-complete",
                                           is_prop(cid), dict(path=k, text="normal exit implies not (%s)" % c.raises[ecls][0])))
                 frame_obligations(ex, c, p0, q, qualname, k, obl, is_prop, pre.env)
+                if "fresh_result" in c.note and isinstance(post.env.get("result"), VObj):
+                    obl.append(Obligation(qualname, "fresh-result", list(q.pc), post.env["result"].t >= z3.Int("alloc0"),
+                                          "frame", False, dict(path=k, text="the returned object is newly allocated")))
             elif o.kind == "raise":
                 exc = o.value
                 conds = [cond for ecls, cond in raise_conds.items()
@@ -256,7 +267,7 @@ def frame_obligations(ex, c, p0, q, unit, k, obl, is_prop, env=None):
     for fld, t1 in q.heap.items():
         if ("heap." + fld) in c.modifies:
             continue
-        ats = [m.split("@")[1] for m in c.modifies if m.startswith("heap.%s@" % fld)]
+        ats = [m.split("@")[1] for m in c.modifies if m.startswith("heap.%s@" % fld) and not m.endswith("@new")]
         t0 = p0.heap.get(fld)
         if t0 is None:
             t0 = z3.Const("heap0_" + fld, t1.sort())
